@@ -237,8 +237,9 @@ Definition retry_ms : N := 250.
 Definition is_retry (o : uout) : bool := match o with UErr | UHang => true | _ => false end.
 Definition is_ok (o : uout) : bool := match o with UOk _ | UEcho _ => true | _ => false end.
 
+(* a hanging call returns [lat] after the context is done *)
 Definition finish_of (deadline start lat : N) (o : uout) : N :=
-  match o with UHang => N.max start deadline | _ => start + lat end.
+  match o with UHang => N.max start deadline + lat | _ => start + lat end.
 
 (* the calls a relay goroutine makes if the semaphore is never taken by another *)
 Fixpoint free_calls (deadline : N) (tries : nat) (start : N) (script : list (N * uout)) : list call :=
@@ -441,19 +442,25 @@ Definition run (c : config) (e : env) (d : duty) (do_prepare : bool)
     let '(d1, evs, ok) := prepare c e d in ((evs, ok), propose c e d1)
   else (([], true), propose c e d).
 
-(* no two events of different relays at one instant in a way that lets Go's scheduler decide:
-   a delivery coinciding with another relay's returning call, or with the deadline *)
+(* No two relay goroutines act at one instant in a way that lets Go's scheduler decide:
+   - two calls of different relays returning together: each probes the semaphore with
+     TryAcquire/Release, which is not atomic, so one of them can find it taken although no relay has
+     delivered, and give up its retries;
+   - the first delivery coinciding with the deadline (the collector's select has both cases ready);
+   - another relay's call starting at the instant of the first delivery (it reads the structure the
+     collector is clearing); the delivering call itself may start at that instant (latency 0). *)
 Definition finishes (plans : list (list call)) : list N := concat (map (map k_finish) plans).
+Definition starts (plans : list (list call)) : list N := concat (map (map k_start) plans).
 
 Definition count_eq (t : N) (l : list N) : nat := length (filter (N.eqb t) l).
 
-Definition starts (plans : list (list call)) : list N := concat (map (map k_start) plans).
+Definition distinct (l : list N) : bool := forallb (fun t => Nat.eqb (count_eq t l) 1) l.
 
-(* ... or with another relay's call starting (it reads the structure the collector is clearing);
-   the delivering call itself may start at that instant (latency 0) *)
 Definition tie_free (deadline : N) (plans : list (list call)) : bool :=
-  match first_delivery plans with
-  | None => true
-  | Some w => Nat.eqb (count_eq w (finishes plans)) 1 && negb (w =? deadline)
-              && Nat.leb (count_eq w (starts plans)) (count_eq w (map k_start (filter (fun k => is_ok (k_out k) && (k_finish k =? w)) (concat plans))))
-  end.
+  distinct (finishes plans)
+  && match first_delivery plans with
+     | None => true
+     | Some w => negb (w =? deadline)
+                 && Nat.leb (count_eq w (starts plans))
+                            (count_eq w (map k_start (filter (fun k => is_ok (k_out k) && (k_finish k =? w)) (concat plans))))
+     end.
